@@ -222,3 +222,41 @@ def generated_notes(run, prop, wanted_or):
                 run.cov["conformant"] = False
     run.cov["generated_note_programs"] = {"programs": nprog, "schedules_each": nruns, "harnesses": "h_l2r (real mu.c) and h_l2 (ideal lock), alternating",
                                           "generator": "tools/genprog.py gennote (seed %d..%d, focus %s)" % (base, base + nprog - 1, prop), "violations": nv}
+
+
+def trace_validate(run, exe, spec, configs, consts_of, invariants, prop, nexec=30):
+    """code -> spec for an L2 specification: executions of each configuration's program on the ideal-lock harness under random schedules are
+    recorded (thread, kind of operation, a few state words) and validated against <spec>Trace.tla; `invariants` are evaluated in every
+    matched state.  A rejection is a divergence (reported, not a violation); a failed invariant on a matched state is a violation."""
+    import concurrent.futures as cf
+    os.makedirs(MC, exist_ok=True); os.makedirs(os.path.join(WORK, "tlc"), exist_ok=True)
+    shutil.copy(os.path.join(SPEC, spec + "Trace.tla"), os.path.join(MC, spec + "Trace.tla"))
+    e = dict(os.environ, VERIF_PROP=prop)
+
+    def one(item):
+        name, conf = item
+        tr = os.path.join(WORK, "tlc", "l2trace_%s_%s.ndjson" % (spec, name))
+        mulib.run_harness_env(exe, ["random", str(nexec), str(seed() + 31), init_line(spec.lower(), conf), REPLAYS, tr], e)
+        nlines = sum(1 for _ in open(tr))
+        tla, cfg = write_mc(spec, "tr_" + name, conf, consts_of(conf), export=False)
+        txt = open(tla).read().replace("EXTENDS %s\n" % spec, "EXTENDS %sTrace\n" % spec)
+        open(tla, "w").write(txt)
+        ctxt = open(cfg).read().replace("SPECIFICATION SpecU", "SPECIFICATION TraceSpec") + "".join("INVARIANT %s\n" % i for i in invariants) + "CONSTRAINT Progress\nPOSTCONDITION Accepted\n"
+        open(cfg, "w").write(ctxt)
+        info = tlc_plain(tla, cfg, workers=1, cwd=MC, env=dict(os.environ, TRACE=tr), timeout=900)
+        m = re.search(r'<<"matched", (\d+), "of", (\d+)>>', info["out"])
+        os.unlink(tr)
+        return name, conf, nlines, int(m.group(1)) if m else 0, info
+    with cf.ThreadPoolExecutor(4) as ex:
+        for name, conf, nlines, matched, info in ex.map(one, configs):
+            acc = info["ok"] and matched == nlines
+            run.cov.setdefault("recorded_traces", []).append({"program": "%s/%s" % (spec, name), "threads": len(conf["progs"]), "executions": nexec, "events": nlines,
+                                                              "matched": matched, "accepted": acc, "states": info["distinct"], "spec": spec + "Trace.tla"})
+            if acc:
+                run.add("traces_validated_against_impl", nexec)
+            elif info["violated"] and info["violated"] != "Deadlock":
+                run.violation("TLC|%s|recorded trace of %s/%s" % (info["violated"], spec, name), "-",
+                              "an invariant of %s.tla fails on a state of a recorded execution of the real code (matched %d of %d events): %s" % (spec, matched, nlines, info["out"][-300:]))
+            else:
+                run.note("DIVERGENCE: recorded executions of %s/%s are not behaviours of %s.tla (longest matched prefix %d of %d events); not a violation by itself" % (spec, name, spec, matched, nlines))
+                run.cov["conformant"] = False
